@@ -57,6 +57,8 @@ CATALOGUE = [
     M('trivial-diff-returns-clipping', ['C01', 'C06'], [(MOD, "Operation::Difference => MultiPolygon(Vec::from(subject)),", "Operation::Difference => MultiPolygon(Vec::from(clipping)),")], {'C01': 'T-trivial'}),
     M('trivial-xor-subject-only', ['C06', 'C01'], [(MOD, "        Operation::Union | Operation::Xor => MultiPolygon(subject.iter().chain(clipping).cloned().collect()),",
                                                   "        Operation::Union => MultiPolygon(subject.iter().chain(clipping).cloned().collect()),\n        Operation::Xor => MultiPolygon(subject.to_vec()),")], {'C06': 'T-trivial'}),
+    B('impl-delegates-correctly', ['C01', 'C07'], [(MOD, "        boolean_operation(self.0.as_slice(), &[rhs.clone()], operation)", "        self.boolean(&MultiPolygon(vec![rhs.clone()]), operation)")]),
+    M('impl-delegates-swapped', ['C01', 'C07'], [(MOD, "        boolean_operation(self.0.as_slice(), &[rhs.clone()], operation)", "        rhs.boolean(self, operation)")], {'C01': 'T-forward'}),
     B('trivial-to_vec', ['C01', 'C06'], [(MOD, "MultiPolygon(Vec::from(subject))", "MultiPolygon(subject.to_vec())")]),
     # ---- C09 / C06 boxes
     M('shortcut-ge', ['C09', 'C06'], [(MOD, "if sbbox.min.x > cbbox.max.x ||", "if sbbox.min.x >= cbbox.max.x ||")], {'C09': 'B-test', 'C06': 'B-test'}),
